@@ -7,7 +7,7 @@ for l in open("/verif/benign/RESULTS.txt"):
     if m:
         res[m.group(1)] = m.group(3)
 rows = []
-for d in sorted(glob.glob("/verif/benign/C*_*")) + sorted(glob.glob("/verif/benign/B2_C*_*")):
+for d in sorted(glob.glob("/verif/benign/C*_*")) + sorted(glob.glob("/verif/benign/B2_C*_*")) + sorted(glob.glob("/verif/benign/B3_C*_*")):
     n = os.path.basename(d)
     m = json.load(open(d + "/meta.json"))
     r = res.get(n, "not run")
@@ -26,7 +26,7 @@ for d in sorted(glob.glob("/verif/benign/C*_*")) + sorted(glob.glob("/verif/beni
 out = ["# Harmless rewrites (false-alarm suite)", "",
        "Each directory: patch.diff (a realistic rewrite of the anchored code under which the property still holds as stated; written by",
        "sub-agents who saw only the property texts; the package's 245 tests pass with it) and meta.json (what / why harmless). `Cxx_k` = first",
-       "round, `B2_Cxx_k` = second round (written after the corrections of the first round, other kinds of rewrite: unseen by the checks).",
+       "round, `B2_Cxx_k` = second round (written after the corrections of the first round, other kinds of rewrite: unseen by the checks); `B3_Cxx_k` = third round (after the extension rounds brought the glue code into the model: rewrites of argument normalisation, container / dtype conversion, naming, printing, path handling).",
        "`tools/try_benign.sh benign/<id>` applies one in a scratch worktree of /repo and runs the property's quick check;",
        "`tools/run_benign_all.sh` runs all and writes RESULTS.txt; this table is `tools/benign_table.py`. Expected: exit 0. A rewrite marked",
        "rng_changed consumes random numbers in another (distributionally identical) way: the scripted-stream correspondence cannot be applied",
